@@ -2570,3 +2570,14 @@ mod test {
         test_lifted_openings(vec![mat0, mat1, mat2, mat3, mat4]);
     }
 }
+
+/// Verification hook (guard: `--cfg p3_recursion_verif`): public wrapper around the private
+/// cap-selection gadget.
+#[cfg(p3_recursion_verif)]
+pub fn verif_select_cap_entry<EF: Field>(
+    circuit: &mut CircuitBuilder<EF>,
+    cap: &[Vec<Target>],
+    index_bits: &[Target],
+) -> Vec<Target> {
+    select_cap_entry(circuit, cap, index_bits)
+}
